@@ -60,11 +60,12 @@ Inductive cop :=
 | BUpdateEstimate (nonce contract est : Z)
 | BRemove (nonce contract : Z).           (* executed, cancelled or timed out *)
 
-(** evm.GetEthAddressByValidator: the address of the first account on that chain. *)
+(** evm.GetEthAddressByValidator: the PARSED address of the first account on that chain (spelling-insensitive;
+    valset's collision check, [collides], compares the address strings and Pubkey blobs as written). *)
 Fixpoint first_on_chain (l : list acct) (chain : Z) : option Z :=
   match l with
   | [] => None
-  | a :: r => if ac_chain a =? chain then Some (ac_addr a) else first_on_chain r chain
+  | a :: r => if ac_chain a =? chain then Some (ac_eth a) else first_on_chain r chain
   end.
 
 Definition eth_address (reg : list (Z * list acct)) (v chain : Z) : option Z :=
